@@ -113,6 +113,17 @@ func genC05(t *rapid.T) C05Case {
 		g.Prog.Main = append(g.Prog.Main, ragen.Line{K: ragen.KInclude, File: "biglist"})
 		g.Labels["include-above-1KiB"] = true
 	}
+	// a generated list above 1 MiB (long entries, as produced by scripts that dump payload corpora)
+	if rapid.IntRange(0, 199).Draw(t, "hugelist") == 137 {
+		var huge []ragen.Line
+		for i := 0; i < 108; i++ {
+			huge = append(huge, ragen.Line{K: ragen.KEntry, T: fmt.Sprintf("h%03d", i) + strings.Repeat("payload", 1430)})
+		}
+		huge = append(huge, ragen.Line{K: ragen.KEntry, T: "lastofthehugelist"})
+		g.Prog.Files["include/hugelist.ra"] = huge
+		g.Prog.Main = append(g.Prog.Main, ragen.Line{K: ragen.KInclude, File: "hugelist"})
+		g.Labels["include-above-1MiB"] = true
+	}
 	c.Global = rapid.SampledFrom([][]string{nil, nil, nil, {"-l", "trace"}, {"-l", "debug"}, {"--log-level", "trace"}}).Draw(t, "global")
 	if len(c.Global) > 0 {
 		g.Labels["log-level-given"] = true
